@@ -88,6 +88,17 @@ Section Deriv.
       + cbn [nth]. rewrite IH. cbn [rnat]. ring.
   Qed.
 
+  (* ... and it is the derivative in the analytic sense: P(x+h) = P(x) + h P'(x) + h^2 T(x,h)
+     with T a polynomial expression (so the difference quotient tends to P'(x)) *)
+  Fixpoint ptay (P : list R) (x h : R) : R :=
+    match P with [] => 0 | _ :: Q => peval (pderiv Q) x + (x + h) * ptay Q x h end.
+  Theorem pderiv_taylor P x h :
+    peval P (x + h) = peval P x + h * peval (pderiv P) x + h * h * ptay P x h.
+  Proof.
+    induction P as [|a P IH]; [simpl; ring|].
+    cbn [peval pderiv ptay]. rewrite IH, peval_padd. cbn [peval]. ring.
+  Qed.
+
   (* product rule, in the only form needed: P evaluated at the dual number x + eps *)
   Theorem peval_dual (P : list R) (x : R) :
     peval (R := D) (map dinj P) (x, 1) = (peval P x, peval (pderiv P) x).
@@ -131,7 +142,7 @@ Section Deriv.
   Qed.
 End Deriv.
 
-Arguments pderiv {R} _. Arguments mentions {R} _.
+Arguments pderiv {R} _. Arguments mentions {R} _. Arguments ptay {R} _ _ _.
 
 (* ------------------------------------------------------------------------------------ *)
 (* Matrices over the dual numbers versus block matrices over R. *)
